@@ -350,8 +350,19 @@ def inline_helpers(prog: Program, fn: FuncInfo, node: FuncNode | None = None, ex
                             isinstance(n, (ast.Attribute, ast.Subscript)) and isinstance(n.ctx, (ast.Store, ast.Del))
                             or isinstance(n, ast.Call) and not _is_pure(n) for st in hb for n in ast.walk(st))
                         direct: dict[str, ast.AST] = {}
+                        rebound_param = False
                         for k, v in binds.items():
                             if k in locals_h:
+                                # the helper re-binds its own parameter: the parameter becomes a fresh local of the
+                                # caller, initialised with the argument (as the call would) -- never a free name
+                                fresh = f"{k}__{h.name.strip('_')}"
+                                prelude.append(ast.copy_location(ast.Assign(
+                                    targets=[ast.Name(id=fresh, ctx=ast.Store())], value=copy.deepcopy(v)), s))
+                                for st in hb:
+                                    for nn in ast.walk(st):
+                                        if isinstance(nn, ast.Name) and nn.id == k:
+                                            nn.id = fresh
+                                rebound_param = True
                                 continue
                             reads_state = any(isinstance(n, (ast.Attribute, ast.Subscript, ast.Call)) for n in ast.walk(v))
                             if writes_state and reads_state and not _has_await(v):
@@ -363,6 +374,8 @@ def inline_helpers(prog: Program, fn: FuncInfo, node: FuncNode | None = None, ex
                                 direct[k] = v
                         sub = _Subst(direct)
                         hb = [sub.visit(st) for st in hb]
+                        if rebound_param and kind != "block":
+                            continue       # an expression-shaped helper has no place for the prelude: leave the call
                         if kind == "cond":
                             ce = _to_expr(hb)
                             if ce is None:
